@@ -542,7 +542,7 @@ theorem loop_scope_visited (c : RCtx) (line : Nat) (tr : Bool) (var : Bytes) (e 
     (body : List Node) (clauses : List (List Node)) (s : RS) (v : GoVal) (items0 : List GoVal) (off lim : Option Int)
     (x : GoVal) (xs : List GoVal) (I J : Env → Prop) (Q : SK → Env → Prop)
     (hcl : clauses.length ≤ 1)
-    (hv : evaluate c.P s.env e = .ok v) (hitems : loopItems v = .ok items0)
+    (hv : evaluate c.P s.env e = .ok v) (hitems : loopItems c.cfg.budget v = .ok items0)
     (hoff : intModifier c.P mods.offset ⟨line, true⟩ s = .ret (off, s))
     (hlim : intModifier c.P mods.limit ⟨line, true⟩ s = .ret (lim, s))
     (hsel : selectItems mods.reversed off lim items0 = x :: xs)
